@@ -148,12 +148,12 @@ def render_csv(tab, bom=False):
     lines = [','.join(HEADER[:2 + tab['ncol']])]
     for name, typ, ent in tab['rows']:
         lines.append(','.join([name, typ] + [_entry_text(e) for e in ent]))
-    return ('﻿' if bom else '') + '\n'.join(lines) + '\n'
+    return ('\ufeff' if bom else '') + '\n'.join(lines) + '\n'
 
 
 def parse_csv(text):
     """Independent reader of a subfactor CSV (for the built-in tables)."""
-    if text.startswith('﻿'):
+    if text.startswith('\ufeff'):
         text = text[1:]
     rd = list(csv.reader(io.StringIO(text)))
     hdr = rd[0]
